@@ -502,6 +502,9 @@ func (g *vcgen) block(b *ssa.BasicBlock) {
 	}
 	if b.Index == 0 {
 		g.pc = "true"
+		if g.entryPC != "" {
+			g.pc = g.entryPC
+		}
 	} else {
 		if len(conds) == 0 {
 			// unreachable (e.g. only reachable through a cut edge)
